@@ -48,7 +48,7 @@ theorem dec_enc (m : Mode) : ∀ (s : Shape) (v : Val), hasShape s v = true → 
   | .point, .s xs, h => by
     simp only [hasShape] at h
     match xs, h with
-    | [.u a, .h b], _ => simp [encVal, encVals, decVal, decPoint, items, strPayload]
+    | [.u a, .h b], _ => cases m.tags <;> simp [encVal, encVals, decVal, decPoint, pointPair, strip55799, items, strPayload]
     | [], h => simp [fieldsShape] at h
     | [_], h => simp [fieldsShape] at h
     | _ :: _ :: _ :: _, h => simp [fieldsShape] at h
@@ -276,6 +276,33 @@ theorem decLeaf_strict_lax (s : Shape) (t : Cbor) (v : Val) (h : decLeaf Mode.st
 
 
 
+theorem pointPair_strip (a h : Cbor) (v : Val) (hp : pointPair a h = some v) :
+    pointPair (strip55799 a) (strip55799 h) = some v := by
+  unfold pointPair at hp
+  split at hp
+  · rename_i w slot
+    split at hp
+    · rename_i hash hs
+      have hh : strip55799 h = h := by cases h <;> simp_all [strPayload, strip55799]
+      simp [pointPair, strip55799, hh, hs, hp]
+    · cases hp
+  · cases hp
+
+theorem decPoint_false_true (t : Cbor) (v : Val) (h : decPoint false t = some v) : decPoint true t = some v := by
+  unfold decPoint at h ⊢
+  cases hi : items t with
+  | none => rw [hi] at h; simp at h
+  | some xs =>
+    rw [hi] at h
+    match xs, h with
+    | [], h => simpa using h
+    | [a, hh], h =>
+      simp only [Bool.false_eq_true, ↓reduceIte] at h
+      simp only [↓reduceIte]
+      exact pointPair_strip a hh v h
+    | [_], h => simp at h
+    | _ :: _ :: _ :: _, h => simp at h
+
 mutual
 theorem strict_lax : ∀ (s : Shape) (t : Cbor) (v : Val), decVal Mode.strict s t = some v → decVal Mode.lax s t = some v
   | s, .tag w n x, v, h => by
@@ -303,7 +330,7 @@ theorem strict_lax : ∀ (s : Shape) (t : Cbor) (v : Val), decVal Mode.strict s 
   | s, .arr w xs, v, h => by
     cases s with
     | raw => simpa [decVal] using h
-    | point => simpa [decVal] using h
+    | point => simp only [decVal, Mode.strict, Mode.lax] at h ⊢; exact decPoint_false_true _ v h
     | list e =>
       simp only [decVal, Option.map_eq_some_iff] at h ⊢
       obtain ⟨vs, hvs, rfl⟩ := h
@@ -322,7 +349,7 @@ theorem strict_lax : ∀ (s : Shape) (t : Cbor) (v : Val), decVal Mode.strict s 
   | s, .arrI xs, v, h => by
     cases s with
     | raw => simpa [decVal] using h
-    | point => simpa [decVal] using h
+    | point => simp only [decVal, Mode.strict, Mode.lax] at h ⊢; exact decPoint_false_true _ v h
     | list e =>
       simp only [decVal, Option.map_eq_some_iff] at h ⊢
       obtain ⟨vs, hvs, rfl⟩ := h
@@ -439,8 +466,8 @@ theorem leaf_iff (s : Shape) (t : Cbor) (ht : ∀ w n x, t ≠ .tag w n x) (ha :
 
 
 
-theorem decPoint_iff_arr (w : W) (xs : List Cbor) : (decPoint (.arr w xs)).isSome = pointConforms xs := by
-  unfold decPoint items
+theorem decPoint_iff_arr (w : W) (xs : List Cbor) : (decPoint false (.arr w xs)).isSome = pointConforms xs := by
+  unfold decPoint items pointPair
   simp only
   match xs with
   | [] => simp [pointConforms]
@@ -457,8 +484,8 @@ theorem decPoint_iff_arr (w : W) (xs : List Cbor) : (decPoint (.arr w xs)).isSom
     | _ => simp [pointConforms]
   | _ :: _ :: _ :: _ => simp [pointConforms]
 
-theorem decPoint_iff_arrI (xs : List Cbor) : (decPoint (.arrI xs)).isSome = pointConforms xs := by
-  unfold decPoint items
+theorem decPoint_iff_arrI (xs : List Cbor) : (decPoint false (.arrI xs)).isSome = pointConforms xs := by
+  unfold decPoint items pointPair
   simp only
   match xs with
   | [] => simp [pointConforms]
@@ -519,7 +546,7 @@ theorem strict_iff_conforms : ∀ (s : Shape) (t : Cbor), (decVal Mode.strict s 
   | s, .arr w xs => by
     cases s with
     | raw => simp [decVal, conforms]
-    | point => simp only [decVal, conforms]; exact decPoint_iff_arr w xs
+    | point => simp only [decVal, conforms, Mode.strict]; exact decPoint_iff_arr w xs
     | list e => simp only [decVal, conforms, isSome_map]; exact strict_iff_conformsL e xs
     | struct fs => simp only [decVal, conforms, isSome_map]; exact strict_iff_conformsF fs xs
     | bytes => simp [decVal, conforms, Mode.strict]
@@ -532,7 +559,7 @@ theorem strict_iff_conforms : ∀ (s : Shape) (t : Cbor), (decVal Mode.strict s 
   | s, .arrI xs => by
     cases s with
     | raw => simp [decVal, conforms]
-    | point => simp only [decVal, conforms]; exact decPoint_iff_arrI xs
+    | point => simp only [decVal, conforms, Mode.strict]; exact decPoint_iff_arrI xs
     | list e => simp only [decVal, conforms, isSome_map]; exact strict_iff_conformsL e xs
     | struct fs => simp only [decVal, conforms, isSome_map]; exact strict_iff_conformsF fs xs
     | bytes => simp [decVal, conforms, Mode.strict]
